@@ -20,7 +20,7 @@ VCViol(e) ==
   IF e.status = "panic" THEN {V("value completion panicked")} ELSE
   (IF badRef # {} THEN LET i == CHOOSE i \in badRef : TRUE IN
      {V(IF cs[i][1] \in env.edited THEN "the attribute being edited is offered as a reference candidate"
-        ELSE IF cs[i][1] \notin Visible(env) THEN (IF IsPrefixStr("self.", cs[i][1]) THEN "a block-local name is offered where it is not visible"
+        ELSE IF cs[i][1] \notin Visible(env) THEN (IF IsPrefixStr("self.", cs[i][1]) \/ IsPrefixStr("count.", cs[i][1]) \/ IsPrefixStr("each.", cs[i][1]) THEN "a block-local name is offered where it is not visible"
                                                        ELSE IF e.place.level = 3 /\ IsPrefixStr("d.two", cs[i][1]) THEN "the block the cursor is in (or a declaration inside it) is offered by its absolute address"
                                                        ELSE "reference candidate is not the address of a collected declaration")
         ELSE IF ~IsPrefixStr(e.typed, cs[i][1]) THEN "reference candidate does not start with the typed text"
